@@ -8,6 +8,16 @@ from .unit import run_symx, verus_to_rust_spec, VERIF
 
 ARITH_LEMMAS = r'''
 // ---- small modular-arithmetic helpers used by generated proofs (proved here) ----
+proof fn lemma_mul_swap_last(a: int, x: int, y: int) ensures (a * x) * y == (a * y) * x
+{ lemma_mul_is_associative(a, x, y); lemma_mul_is_associative(a, y, x); lemma_mul_is_commutative(x, y); }
+proof fn lemma_term_mul(p: int, a: int, q: int, b: int, c: int) requires a * b == c ensures (p * a) * (q * b) == (p * q) * c
+{
+    lemma_mul_is_associative(p, a, q * b);       // p*(a*(q*b)) == (p*a)*(q*b)
+    lemma_mul_is_associative(a, q, b);           // a*(q*b) == (a*q)*b
+    lemma_mul_is_commutative(a, q);
+    lemma_mul_is_associative(q, a, b);           // q*(a*b) == (q*a)*b
+    lemma_mul_is_associative(p, q, a * b);       // p*(q*(a*b)) == (p*q)*(a*b)
+}
 proof fn lemma_small_mod_any(x: int, q: int) requires 0 <= x < q ensures x % q == x { lemma_small_mod(x as nat, q as nat); }
 proof fn lemma_cong_zero_mul(c: int, l: int, r: int, q: int)
     requires q > 0, l % q == r % q ensures (c * (l - r)) % q == 0
@@ -154,27 +164,41 @@ impl PartialEq for {T} {{
             else:
                 nm, ty = [x.strip() for x in a.split(':', 1)]
                 base = ty.lstrip('&').replace('mut ', '').strip().replace('Self', T)
+                if base in ('usize', 'u64', 'bool'):
+                    raise weave.Unsupported(f"{label}: non-field argument {a}")
                 decl.append(f'let {nm} = {base}::fresh("{nm}");')
                 callargs.append(('&' if ty.startswith('&') else '') + nm)
         call = f"real__{f['name']}({', '.join(callargs)})"
-        if f['upd']:
+        run = f.get('run')
+        recv = 's.' if selfmode else f'{T}::'
+        if run:
+            tagx = run.get('tag', '""')
+            body = (f"let r = {recv}{call}; let tag: &str = {tagx}; let code = {run['code']}; let spec = {run['spec']};")
+        elif f['upd']:
             spec = f['upd'].replace('SELF', 's0.v()')
-            body = f"s.{call}; let code = flat_json(&s.v()); let spec = flat_json(&({spec}));"
+            body = f"s.{call}; let tag = \"\"; let code = flat_json(&s.v()); let spec = flat_json(&({spec}));"
         else:
             spec = f['ret'].replace('SELF', 's0.v()')
-            recv = 's.' if selfmode else f'{T}::'
-            body = f"let r = {recv}{call}; let code = flat_json(&r); let spec = flat_json(&({spec}));"
+            body = f"let r = {recv}{call}; let tag = \"\"; let code = flat_json(&r); let spec = flat_json(&({spec}));"
         return (f"fn run_{label}() -> String {{ explore(\"{label}\", || {{ {' '.join(decl)} {body} "
-                f"format!(\"{{{{\\\"code\\\":{{}},\\\"spec\\\":{{}}}}}}\", code, spec) }}) }}")
+                f"format!(\"{{{{\\\"tag\\\":\\\"{{}}\\\",\\\"code\\\":{{}},\\\"spec\\\":{{}}}}}}\", tag, code, spec) }}) }}")
 
     def actual(self, var, f):
         parts = var.split('__')
         a = parts[0]
-        if a == 'self':
+        fa = f.get('fresh_actuals') or {}
+        if a in fa:
+            base = fa[a]
+        elif a == 'self':
             base = 'old(self)' if '&mut self' in f['args'] else 'self'
         else:
             base = a
         return '.'.join([base] + parts[1:])
+
+    def subst_actuals(self, text, names, f):
+        for v in sorted(names, key=len, reverse=True):
+            text = re.sub(r'\b' + re.escape(v) + r'\b', '(' + self.actual(v, f) + '.v())', text)
+        return text
 
     def finish(self):
         u = self.u
@@ -187,7 +211,7 @@ impl PartialEq for {T} {{
         for T, fs in by_ty.items():
             sx.append(f"impl {T} {{")
             for f in fs:
-                si = self.symx_spec_impl(f)
+                si = f.get('symx_impl') or self.symx_spec_impl(f)
                 if si:
                     sx.append(si)
             sx.append("}")
@@ -212,19 +236,28 @@ impl PartialEq for {T} {{
         prog = base + "\n" + "\n".join(u.symx_parts) + "\n" + "\n".join(sx)
         res = run_symx(self.workdir, u.name, prog)
         dag = ring.Dag(res['nodes'])
+        self.dag = dag
         jobs = {j['fn']: j for j in res['jobs']}
         # ---- lemmas and calls
-        calls = {}
+        calls = {}      # label -> {tag: [call texts]}
         self.ring_info = {}
         for label, f in runs:
             j = jobs[label]
-            texts = []
+            bytag = {}
             info = dict(paths=len(j['paths']), lemmas=0, false_outputs=[])
             for pi, p in enumerate(j['paths']):
                 code, spec = p['outs']['code'], p['outs']['spec']
+                tag = p['outs'].get('tag', '')
                 if len(code) != len(spec):
                     raise weave.Unsupported(f"{label}: output arity mismatch")
                 hyps = [tuple(h) for h in p['hyps']]
+                guard_eqs = []
+                for c in p['conds']:
+                    if c['taken']:
+                        for l, r in c['eqs']:
+                            hyps.append((l, r))
+                            guard_eqs.append((l, r))
+                texts = []
                 for oi, (c, s) in enumerate(zip(code, spec)):
                     if dag.spec_txt(c) == dag.spec_txt(s):
                         continue
@@ -232,17 +265,28 @@ impl PartialEq for {T} {{
                     try:
                         (head, body), params = ring.emit_lemma(lname, dag, [(c, s)], hyps=hyps)
                     except ring.IdentityFalse as e:
-                        # the code does not compute the spec: no lemma; Verus will fail the postcondition.
-                        w = ring.random_witness(dag, c, s)
-                        info['false_outputs'].append(dict(path=pi, output=oi, witness={k: hex(v) for k, v in (w or {}).items()},
-                                                          code=dag.spec_txt(c)[:2000], spec=dag.spec_txt(s)[:2000]))
+                        # the code does not compute the spec on this path: no lemma; Verus will fail the postcondition.
+                        w = ring.path_witness(dag, c, s, p)
+                        info['false_outputs'].append(dict(path=pi, output=oi, tag=tag,
+                                                          conds=[dict(kind=cc['kind'], taken=cc['taken']) for cc in p['conds']],
+                                                          witness={k: hex(v) for k, v in (w or {}).items()},
+                                                          code=dag.spec_txt(c)[:1500], spec=dag.spec_txt(s)[:1500]))
                         continue
                     u.lemmas.append(dict(name=lname, head=head, body=body, group=label))
                     info['lemmas'] += 1
                     acts = [self.actual(v, f) for v in params]
                     texts.append(" ".join(f"ax_fq_range({a});" for a in acts))
                     texts.append(f"{lname}({', '.join(a + '.v()' for a in acts)});")
-            calls[label] = texts
+                if texts:
+                    if guard_eqs:
+                        names = set()
+                        for l, r in guard_eqs:
+                            names |= dag.leaves(l) | dag.leaves(r)
+                        g = " && ".join(f"{self.subst_actuals(dag.spec_txt(l), names, f)} == {self.subst_actuals(dag.spec_txt(r), names, f)}"
+                                        for l, r in guard_eqs)
+                        texts = [f"if {g} {{"] + texts + ["}"]
+                    bytag.setdefault(tag, []).extend(texts)
+            calls[label] = bytag
             self.ring_info[label] = info
         u.ring_info = self.ring_info
         # ---- Verus text: real functions with contracts
@@ -250,8 +294,22 @@ impl PartialEq for {T} {{
             u.add(f"impl {T} {{")
             for f in fs:
                 label = f"{T}_{f['name']}"
-                tail = None
+                kw = dict(f['kw'])
                 if f['ring'] and calls.get(label):
-                    tail = "proof { " + "\n".join(calls[label]) + " }"
-                u.add(u.real_fn(self.types[T]['mod'], f['impl'], f['name'], self.contract(f), vis='pub', tail=tail, **f['kw']))
+                    place = f.get('place') or {}
+                    ghost = list(kw.pop('ghost', ()))
+                    default_texts = []
+                    for tag, texts in calls[label].items():
+                        if tag in place:
+                            anchor, where = place[tag][0], place[tag][1]
+                            occ = place[tag][2] if len(place[tag]) > 2 else 0
+                            ghost.append((anchor, "proof { " + "\n".join(texts) + " }", where, occ))
+                        else:
+                            default_texts += texts
+                    if default_texts:
+                        blk = "proof { " + "\n".join(default_texts) + " }"
+                        kw['tail'] = blk
+                        kw['before_returns'] = blk
+                    kw['ghost'] = ghost
+                u.add(u.real_fn(self.types[T]['mod'], f['impl'], f['name'], self.contract(f), vis='pub', **kw))
             u.add("}")
